@@ -1,7 +1,8 @@
 SPECIFICATION Spec
 CONSTANTS
-  Mode = "shared"
-  EarlyExit = FALSE
-  MaxLen = 3
+  Mode = "copy"
+  EarlyExit = TRUE
+  MaxLen = 2
 INVARIANT EachTestStartsFromSetup
 INVARIANT ResultIndependentOfHistory
+INVARIANT ExecutorPrivate
